@@ -20,7 +20,9 @@ import (
 
 // tracked struct -> field -> true
 var tracked = map[string]map[string]bool{
-	"channel":     {"responseRouters": true, "lastError": true, "latency": true, "gorumsStream": true, "streamCtx": true, "cancelStream": true, "gorumsClient": true},
+	"channel": {"responseRouters": true, "lastError": true, "latency": true, "gorumsStream": true, "streamCtx": true, "cancelStream": true, "gorumsClient": true,
+		// set once in newChannel, before the goroutines exist (rand: a *rand.Rand is not safe for concurrent use, so it must not be used at all afterwards)
+		"rand": true, "backoffCfg": true, "parentCtx": true, "node": true, "sendQ": true},
 	"RawManager":  {"nodes": true, "lookup": true},
 	"RawNode":     {"conn": true, "closed": true},
 	"Correctable": {"reply": true, "level": true, "err": true, "done": true, "watchers": true},
